@@ -584,6 +584,17 @@ def impl_repro(case):
                 compile_routine(to_qref(gen_hierarchy(wr, max_depth=2)))
             except Exception:
                 pass
+    if case.get("warm"):
+        # ... and the SAME hierarchy compiled first through ANOTHER backend object whose parser reads the texts differently
+        # (every user function f(...) as log2(...), every 2 as 3): what that backend made of a text is its own business
+        try:
+            import re as _re
+
+            from bartiq.symbolics.sympy_backend import SympyBackend as _SB, parse_to_sympy as _p2s
+            other = _SB(lambda text: _p2s(_re.sub(r"\b2\b", "3", _re.sub(r"\b[fg]\(", "log2(", text))))
+            compile_routine(SchemaV1(**to_qref(case["routine"])), backend=other)
+        except Exception:
+            pass
     if case.get("twin_first"):
         # the same routine with every integer literal written as an integer-valued float (3 -> 3.0), compiled, evaluated and
         # aggregated first: numerically equal numbers of another type must not leak into the later compilation
